@@ -118,6 +118,24 @@ func IsNotExist(err error) bool {
 	return false
 }
 
+// IsExist mirrors os.IsExist.
+func IsExist(err error) bool {
+	for err != nil {
+		if err == fs.ErrExist || err == syscall.EEXIST || err == syscall.ENOTEMPTY {
+			return true
+		}
+		pe, ok := err.(*fs.PathError)
+		if !ok {
+			return false
+		}
+		err = pe.Err
+	}
+	return false
+}
+
+// IsPermission mirrors os.IsPermission (the model never refuses for permissions).
+func IsPermission(err error) bool { return false }
+
 // ---- inspection (harness side) ----
 
 // Exists reports whether p exists and whether it is a directory.
@@ -399,6 +417,68 @@ func CreateTemp(dir, pattern string) (*File, error) {
 }
 
 func Open(p string) (*File, error) { return OpenFile(p, os.O_RDONLY, 0) }
+
+func Create(p string) (*File, error) {
+	return OpenFile(p, os.O_RDWR|os.O_CREATE|os.O_TRUNC, 0o666)
+}
+
+func Mkdir(p string, perm os.FileMode) error {
+	f := Cur
+	p = clean(p)
+	f.step("mkdir", p)
+	if f.fault("mkdir", p) {
+		return perr("mkdir", p, syscall.EIO)
+	}
+	if f.find(p) != nil {
+		return perr("mkdir", p, syscall.EEXIST)
+	}
+	if err := f.parentDir(p); err != nil {
+		return perr("mkdir", p, err)
+	}
+	f.nodes = append(f.nodes, &node{path: p, dir: true, mode: perm})
+	f.Created = append(f.Created, "mkdir:"+p)
+	return nil
+}
+
+// Symlink and Link create link nodes; the model does not resolve through them
+// (opening one fails), it only records that they were created.
+func Symlink(oldname, newname string) error { return mklink("symlink", newname) }
+func Link(oldname, newname string) error    { return mklink("link", newname) }
+
+func mklink(op, newname string) error {
+	f := Cur
+	p := clean(newname)
+	f.step(op, p)
+	if f.find(p) != nil {
+		return perr(op, p, syscall.EEXIST)
+	}
+	if err := f.parentDir(p); err != nil {
+		return perr(op, p, err)
+	}
+	f.nodes = append(f.nodes, &node{path: p, mode: os.ModeSymlink})
+	f.Created = append(f.Created, op+":"+p)
+	return nil
+}
+
+func Truncate(p string, size int64) error {
+	f := Cur
+	p = clean(p)
+	f.step("truncate", p)
+	n := f.find(p)
+	if n == nil {
+		return perr("truncate", p, syscall.ENOENT)
+	}
+	if size < n.size {
+		if n.data != nil && size <= int64(len(n.data)) {
+			n.data = n.data[:size]
+		}
+		n.size = size
+		if n.synced > size {
+			n.synced = size
+		}
+	}
+	return nil
+}
 
 func OpenFile(p string, flag int, perm os.FileMode) (*File, error) {
 	f := Cur
